@@ -135,29 +135,7 @@ theorem gtchange_rows_eq_diff (cfg : Cfg) (prev : Option Nat) (r : Record)
         · rw [h6, hfin]
         · rw [hfin, ← clearPhasing_gcode cfg r.format c, ← h5, ← h6]; exact h7
     · cases hrow
-  · intro n c c' hc hc' hno
-    rw [writeRecord_clookup, hc] at hc'
-    simp only [Option.map_some, Option.some.injEq] at hc'
-    subst hc'
-    unfold finalCall
-    cases hft : findTarget cfg n with
-    | none => exact GtPerm.refl _
-    | some t =>
-      simp only
-      obtain ⟨hname, hmem⟩ := findTarget_name hft
-      split
-      · rename_i hreach
-        have hnone : (updateCall cfg t r (clearPhasing cfg r.format c)).2 = none := by
-          cases hu : (updateCall cfg t r (clearPhasing cfg r.format c)).2 with
-          | none => rfl
-          | some row =>
-            exfalso
-            apply hno row
-            · rw [writeRecord_changes, if_pos hreach, List.mem_filterMap]
-              exact ⟨t, hmem, by rw [hname, hc]; exact hu⟩
-            · rw [(updateCall_changed cfg t r _ row hu).1, hname]
-        exact (updateCall_unchanged cfg t r _ hnone).trans (clearPhasing_gtPerm cfg r.format c)
-      · exact clearPhasing_gtPerm cfg r.format c
+  · exact fun n c c' hc hc' hno => writeRecord_gtPerm_of_no_row cfg prev r n c c' hc hc' hno
 
 /-- **no change rows with trusted genotypes**: if every phase handed to the writer has the alleles of the
     input genotype (the super-read genotype equals the input genotype — guaranteed by the solver unless
@@ -165,21 +143,8 @@ theorem gtchange_rows_eq_diff (cfg : Cfg) (prev : Option Nat) (r : Record)
 theorem gtchange_none_when_trusted (cfg : Cfg) (prev : Option Nat) (r : Record)
     (htrust : ∀ t ∈ cfg.targets, ∀ c p, clookup r.calls t.name = some c →
         lookupPhase cfg.mav t r.pos = some p → sortNat p = gcode c.gt) :
-    (writeRecord cfg prev r).changes = [] := by
-  rw [writeRecord_changes]
-  split
-  · rw [List.filterMap_eq_nil_iff]
-    intro t ht
-    cases hc : clookup r.calls t.name with
-    | none => rfl
-    | some c =>
-      simp only [Option.bind_some, updateCall_snd, changeStep]
-      split
-      · rename_i p hp
-        have := htrust t ht c p hc hp
-        rw [clearPhasing_gcode, if_neg (by simpa using this)]
-      · rfl
-  · rfl
+    (writeRecord cfg prev r).changes = [] :=
+  writeRecord_changes_nil_of_trusted cfg prev r htrust
 
 /-- **recomb_rows_within_set**.  Every row of the recombination list names a child of the family and two
     positions that are neighbours in the sorted member list of one component (phase set) of that family;
